@@ -377,6 +377,24 @@ func c07Prefixes(w *core.W, j int) {
 	ls := textLayouts()
 	cfg := c07Cfg{failAt: -1, file: c07Canary + "/zone.db"}
 	if j >= len(ls) {
+		// a user-registered private type (PrivateHandle): its parser is driven by the same token stream
+		if j == len(ls)+1 {
+			registerPrivate()
+			line := "own.example.\t60\tIN\tXPRIV\t7 dead beef 00"
+			for p := 0; p <= len(line); p++ {
+				c07Parse(w, line[:p], cfg, "prefix/XPRIV", nil)
+				c07Parse(w, line[:p]+"\n", cfg, "prefix/XPRIV", nil)
+				if p < len(line) && (line[p] == ' ' || line[p] == '\t') {
+					c07Parse(w, line[:p]+" (", cfg, "prefix/XPRIV", nil)
+					c07Parse(w, line[:p]+" ( ; c", cfg, "prefix/XPRIV", nil)
+					c07MustError(w, line[:p]+" ) "+line[p:]+"\nnext.example. 60 IN A 192.0.2.1\n", "unbalanced-parenthesis/XPRIV")
+				}
+			}
+			for _, rd := range []string{"", "7", "7 ( de\nad )", "7 zz", "x", "7 de ad ; comment"} {
+				c07Parse(w, "own.example. 60 IN XPRIV "+rd, cfg, "typed-tokens/XPRIV", nil)
+				c07Parse(w, "own.example. 60 IN XPRIV "+rd+"\nnext.example. 60 IN A 192.0.2.1\n", cfg, "typed-tokens/XPRIV", nil)
+			}
+		}
 		// numbers that no 32-bit TTL can hold, in every place a TTL can stand: an error, not a small TTL
 		if j == len(ls) {
 			for _, big := range []string{"4294967296", "18446744073709551615", "18446744073709551616", "18446744073709551617", "36893488147419103233", "99999999999999999999999", "30500568904943w1s", "1w18446744073709551615s", "5124095576030432h", "4294967295s1s", "49710d6h28m16s"} {
@@ -564,7 +582,7 @@ func init() {
 		section{"prefixes", func(string) int { return len(textLayouts()) + 4 }, c07Prefixes},
 	)
 	core.Register(&core.Monitor{
-		ID: "C07", Level: "exploration", Plan: plan, Run: run, Terminates: true, CaseTimeout: 240e9, MaxParallel: 16,
+		ID: "C07", Level: "exploration", Plan: plan, Run: run, Terminates: true, CaseTimeout: 60e9, MaxParallel: 16,
 		Rule: "mutations (byte/token deletion, duplication, transposition, hostile octets, directive soup, truncation) of zone renderings with $GENERATE/$INCLUDE, token soup, 36 crafted texts (100 KiB tokens/comments/strings, unterminated quote/parenthesis/escape, NUL, CRLF, $GENERATE at and over 65536 steps, int64-overflowing ranges, nested $GENERATE, bad modifiers, $INCLUDE with absolute/relative/.. paths, self- and mutually including files, an included file whose reads fail), " +
 			"every octet-prefix of a plain record line of every type (RDATA ending early at end of input, open parenthesis/quote/backslash after each token), surplus tokens after complete RDATA, a closing parenthesis that closes nothing after every blank of the line and an unclosed one at its end (must be reported, whatever the type), arbitrary tokens after every type mnemonic incl. types without presentation format; each with a read error injected at a chosen offset, x {includes off/on} x {no FS / recording FS} x 5 origins x default TTL; oracle: no panic/hang, nothing returned and Err() stable after parsing stops, errors carry line:col (and the file), <= 65536 records per $GENERATE, nested $GENERATE rejected, " +
 			"zero Open calls on the recording FS and zero openat(2) under the canary directory in the strace log of the worker while includes are disabled, <= 8 opens for self-including files, TotalAlloc delta within 4 KiB/octet + per-record allowance; non-trivial = distinct accepted text",
